@@ -114,6 +114,72 @@ func chainSpace(n int, withNeg bool) *explore.Space {
 	}
 }
 
+// operandForms: every lexical shape an operand can start or end with (what the
+// tokenizer sees next to an operator decides how the operator is read).
+var operandForms = []string{"x", "(x)", "count(x)", "1.", ".5", "12", "'s'", "$v", "*", "@x", "div", "and", "x/y", "/x", ".", "..", "x[1]", "text()", "child::x", "p:x", "(1)"}
+
+// formChainSpace: every chain of n operators x every assignment of operand
+// forms to the n+1 operands, rendered with single blanks; item = first operator.
+func formChainSpace(n int, forms []string) *explore.Space {
+	k := len(binOps)
+	f := len(forms)
+	return &explore.Space{
+		Name: fmt.Sprintf("G4-%dops", n), Desc: fmt.Sprintf("every chain of %d binary operators x every assignment of %d operand forms (names, parenthesised, calls, number spellings, literals, variables, *, @x, operator names used as element names, paths, abbreviations, predicates, node tests, axes, QNames) to its operands", n, f),
+		Size:  k,
+		Label: func(i int) string { return binOps[i] + " ... (operand forms)" },
+		Run: func(first int, w *explore.Worker) {
+			ops := make([]int, n)
+			ops[0] = first
+			total := 1
+			for i := 1; i < n; i++ {
+				total *= k
+			}
+			ftotal := 1
+			for i := 0; i <= n; i++ {
+				ftotal *= f
+			}
+			for code := 0; code < total; code++ {
+				c := code
+				for i := 1; i < n; i++ {
+					ops[i] = c % k
+					c /= k
+				}
+				for fc := 0; fc < ftotal; fc++ {
+					var sb strings.Builder
+					x := fc
+					var used []string
+					for i := 0; i <= n; i++ {
+						if i > 0 {
+							sb.WriteString(" " + binOps[ops[i-1]] + " ")
+						}
+						sb.WriteString(forms[x%f])
+						used = append(used, forms[x%f])
+						x /= f
+					}
+					s := sb.String()
+					w.Eval()
+					w.NonTrivialCase(s)
+					if code == 0 && fc == ftotal/2 {
+						w.Sample(s)
+					}
+					exp, got, ok := parseAgree(s)
+					w.RefOutcome(ternary(strings.HasPrefix(exp, "reference rejects"), "invalid", "valid"))
+					if ok {
+						w.EngOutcome("agree")
+						continue
+					}
+					w.EngOutcome("differ")
+					var names []string
+					for _, o := range ops {
+						names = append(names, binOps[o])
+					}
+					parseViolation(w, "G4", s, exp, got, strings.Join(names, ",")+"|"+strings.Join(used, " "))
+				}
+			}
+		},
+	}
+}
+
 // ---- G2: whitespace -------------------------------------------------------
 
 func sameToks(a, b []ref.Tok) bool {
@@ -340,8 +406,16 @@ func c10Spaces(tier string) []*explore.Space {
 	for n := 1; n <= 3; n++ {
 		sp = append(sp, chainSpace(n, true))
 	}
+	// G4
+	sp = append(sp, formChainSpace(1, operandForms), formChainSpace(2, operandForms))
+	if tier == "thorough" {
+		sp = append(sp, formChainSpace(3, operandForms[:12]))
+	}
 	// G2
 	g2 := g2Exprs()
+	// number spellings and operator names next to brackets and operators
+	g2 = append(g2, "5. + 2", "5. div 2", "5. - .5", "(5.) + 2", "a[2.]", "a[5. = 5]", ".5 * 5.", "5. | a", "count(a) + 5.", "5.5 mod 2.", "1 div (2)", "a and (b)", "a or (b)", "7 mod (2)", "a div (b) div (c)",
+		"(a) and (b)", "(a) div (b)", "a[b and (c)]", "a[1 div (1)]", "not(a) or (b)", "a and (b) or (c)", "* div (2)", "* and (*)", "@a or (@b)", "$x div ($x)", "'a' and ('b')", "a/b mod (2)", "a[1] div (2)", "and and (and)", "div div (div)")
 	forms := stepForms(allTests, true)
 	for _, p := range pathsN(forms, 1) {
 		g2 = append(g2, gen.Render(p))
@@ -382,7 +456,7 @@ func c10Spaces(tier string) []*explore.Space {
 func init() {
 	explore.Register(&explore.Property{
 		ID: "C10", Level: "exploration",
-		Rule: "G1: EVERY unparenthesised chain of 1..5 (thorough: 6) binary operators over all 14 operators (13 + '|'), and every chain of <= 3 operators with a unary minus before every subset of operands: the engine's parse tree (hook VerifParseTree) must equal the reference XPath 1.0 parse (fully parenthesised rendering); G2: for every expression of a slice covering every token kind, every placement of {nothing, space, tab+newline} in the first 9 token gaps for which the reference tokenizer still yields the same token sequence must give the same parse tree (and the same values on T(<=2)); G3: every abbreviated path of <= 3 steps vs its mechanical expansion: same parse tree, same node sequence on T(<=3) from every context; non-trivial = chains with >= 2 operators / placements that change the byte string; distinct = distinct strings",
+		Rule: "G1: EVERY unparenthesised chain of 1..5 (thorough: 6) binary operators over all 14 operators (13 + '|'), and every chain of <= 3 operators with a unary minus before every subset of operands: the engine's parse tree (hook VerifParseTree) must equal the reference XPath 1.0 parse (fully parenthesised rendering); G2: for every expression of a slice covering every token kind, every placement of {nothing, space, tab+newline} in the first 9 token gaps for which the reference tokenizer still yields the same token sequence must give the same parse tree (and the same values on T(<=2)); G4: every chain of 1..2 (thorough: 3 over 12 forms) operators x every assignment of 21 operand forms (number spellings `1.` `.5`, parenthesised, calls, literals, variables, *, @x, operator names as element names, paths, predicates, node tests, axes, QNames): same oracle as G1; G3: every abbreviated path of <= 3 steps vs its mechanical expansion: same parse tree, same node sequence on T(<=3) from every context; non-trivial = chains with >= 2 operators / placements that change the byte string; distinct = distinct strings",
 		Assumptions:    []string{"hand-written reference tokenizer and parser (XPath 1.0 EBNF + section 3.7 disambiguation rules)", "hook VerifParseTree renders what parse() returns"},
 		Budget:         budget(90*time.Second, 12*time.Minute),
 		MinRefOutcomes: 1,
